@@ -3,13 +3,7 @@
 use super::*;
 include!("common.inc");
 
-fn stub_vk_from_bytes(_bytes: &[u8]) -> StmResult<crate::signature_scheme::BlsVerificationKey> {
-    if kani::any() { Ok(unsafe { std::mem::zeroed() }) } else { Err(anyhow::anyhow!("bls vk (stub)")) }
-}
 
-never_panics!(c05_closed_entry_legacy_len0, 0, 3, ClosedRegistrationEntry::from_bytes_legacy,
-    kani::stub(crate::signature_scheme::bls_multi_signature::verification_key::BlsVerificationKey::from_bytes, stub_vk_from_bytes));
-never_panics!(c05_closed_entry_legacy_len100, 100, 3, ClosedRegistrationEntry::from_bytes_legacy,
-    kani::stub(crate::signature_scheme::bls_multi_signature::verification_key::BlsVerificationKey::from_bytes, stub_vk_from_bytes));
-never_panics!(c05_closed_entry_legacy_len104, 104, 3, ClosedRegistrationEntry::from_bytes_legacy,
-    kani::stub(crate::signature_scheme::bls_multi_signature::verification_key::BlsVerificationKey::from_bytes, stub_vk_from_bytes));
+never_panics!(c05_closed_entry_legacy_len0, 0, 3, ClosedRegistrationEntry::from_bytes_legacy);
+never_panics!(c05_closed_entry_legacy_len100, 100, 3, ClosedRegistrationEntry::from_bytes_legacy);
+never_panics!(c05_closed_entry_legacy_len104, 104, 3, ClosedRegistrationEntry::from_bytes_legacy);
